@@ -115,6 +115,20 @@ def laws(I):
     return lhs, rhs
   yield 'L10', 'euler_to_quat(v) = Rx(v0) Ry(v1) Rz(v2)', 'brax.math.euler_to_quat', euler
 
+  def euler_inverse():
+    # the inverse conversion reads the Tait-Bryan x-y'-z'' angles off the rotation matrix of q (columns = brax's own
+    # rotate of the basis vectors, homogeneous of degree 2 like the formula): R = Rx(a) Ry(b) Rz(c) has R02 = sin b,
+    # R12 = -sin a cos b, R22 = cos a cos b, R01 = -cos b sin c, R00 = cos b cos c.  The only value-changing guard allowed
+    # is the clip of the sine to [-1, 1] (no-op on rotations): other bounds move the pitch near +-90 degrees by ~1e-4 rad
+    got = I.apply(fn(MA, 'quat_to_euler'), [q], {})
+    cols = [rot(asarr([Rat.lift(int(i == k)) for i in range(3)]), q) for k in range(3)]
+    R = lambda i, k: cols[k][i]
+    J = avn.JNP
+    one = asarr(Rat.lift(1))
+    want = asarr([J['arctan2'](-R(1, 2), R(2, 2)), J['arcsin'](J['clip'](R(0, 2), -one, one)), J['arctan2'](-R(0, 1), R(0, 0))])
+    return got, want
+  yield 'L10', 'quat_to_euler(q) = angles of R(q) = Rx Ry Rz (sine clipped to [-1, 1] only)', 'brax.math.quat_to_euler', euler_inverse
+
   def qra_unit():
     ax, th = symarr('s', (3,)), sym('th')
     r = qra(ax, th)
